@@ -341,3 +341,247 @@ Proof.
   rewrite E. cbn [bind]. exists l'. f_equal. f_equal. f_equal.
   unfold kw_string. norm_list. reflexivity.
 Qed.
+
+(* the common prefix of every "(": keyword and type name are both empty *)
+Lemma read_type_paren : forall f F b r l, (length (40%N :: r) < F)%nat ->
+  read_type (S f) F (mkPst (gc b (40 :: r)) l) =
+    do (_, s5) <- advance F (mkPst (gc (40 :: b) r) l);
+    let (ch4, c6) := next (cu s5) in
+    match ch4 with
+    | Some 41 => ROk (TStruct []) (mkPst c6 (lc s5))
+    | _ => read_fields f F LNone [] [] (mkPst (backup c6) (lc s5))
+    end.
+Proof.
+  intros f F b r l HF. rewrite read_type_S. cbn [cu lc]. rewrite next_gc_cons.
+  cbv beta iota zeta. rewrite backup_gc_cons.
+  unfold read_keyword. rewrite read_span_none; [|reflexivity|exact HF].
+  cbn [bind]. unfold read_type_name. rewrite read_span_none; [|reflexivity|exact HF].
+  cbn [bind cu lc]. rewrite next_gc_cons. cbv beta iota. reflexivity.
+Qed.
+
+Lemma P_struct0 : forall g, gap g -> P_ty (TStruct []) ([40] ++ g ++ [41]).
+Proof.
+  intros g Hg fuel F b k l Hk Hf HF.
+  destruct fuel as [|f]; [lia|].
+  change (([40] ++ g ++ [41]) ++ k) with (40 :: (g ++ [41]) ++ k) in *.
+  rewrite <- app_assoc in *. cbn [app] in *.
+  rewrite read_type_paren by exact HF. cbn [length] in HF.
+  destruct (advance_gap g Hg F (40 :: b) (41 :: k) l eq_refl ltac:(lia)) as [l' E].
+  rewrite E. cbn [bind cu lc]. rewrite next_gc_cons. cbv beta iota.
+  exists l'. norm_list. reflexivity.
+Qed.
+
+(* "(" gap, then a field list whose first name starts at s1 *)
+Lemma read_type_open : forall g g1 c r X f F b l,
+  gap g -> gap g1 -> is_lower c = true ->
+  (length (40%N :: g ++ g1 ++ (c :: r) ++ X) < F)%nat ->
+  exists l', read_type (S (S f)) F (mkPst (gc b (40 :: g ++ g1 ++ (c :: r) ++ X)) l)
+    = fields_body f F LNone [] [] (mkPst (gc (rev g1 ++ rev g ++ 40 :: b) ((c :: r) ++ X)) l').
+Proof.
+  intros g g1 c r X f F b l Hg Hg1 Hc HF.
+  rewrite read_type_paren by exact HF. cbn [length] in HF.
+  pose proof (gap_app g g1 Hg Hg1) as Hgg. rewrite app_assoc in HF |- *.
+  destruct (advance_gap (g ++ g1) Hgg F (40 :: b) ((c :: r) ++ X) l
+              (stop_lower c _ Hc) ltac:(lia)) as [l1 E1].
+  rewrite E1. cbn [bind cu lc app]. rewrite next_gc_cons. cbv beta iota. rewrite m41.
+  assert (E41 : (c =? 41) = false) by (apply lower_range in Hc; apply N.eqb_neq; lia).
+  rewrite E41, backup_gc_cons.
+  rewrite app_length in HF.
+  destruct (read_fields_gap [] f F LNone [] [] (rev (g ++ g1) ++ 40 :: b) (c :: r ++ X) l1
+              gap_nil (stop_lower c _ Hc) ltac:(cbn [app]; cbn [app] in HF; lia)) as [l2 E2].
+  cbn [app rev] in E2. rewrite E2. exists l2. norm_list. reflexivity.
+Qed.
+
+Definition starts_lower (s : bytes) : bool :=
+  match s with c :: _ => is_lower c | [] => false end.
+
+Lemma field_starts_lower : forall n X, field_name_ok n = true -> starts_lower (n ++ X) = true.
+Proof.
+  intros [|c r] X H; [discriminate|]. cbn [field_name_ok] in H.
+  apply andb_true_iff in H. destruct H as [H _]. exact H.
+Qed.
+
+Lemma starts_lower_stop : forall s, starts_lower s = true -> stop s = true.
+Proof. intros [|c r] H; [discriminate|]. apply stop_lower. exact H. Qed.
+
+Lemma read_type_open' : forall g g1 s1 X f F b l,
+  gap g -> gap g1 -> starts_lower s1 = true ->
+  (length (40%N :: g ++ g1 ++ s1 ++ X) < F)%nat ->
+  exists l', read_type (S (S f)) F (mkPst (gc b (40 :: g ++ g1 ++ s1 ++ X)) l)
+    = fields_body f F LNone [] [] (mkPst (gc (rev g1 ++ rev g ++ 40 :: b) (s1 ++ X)) l').
+Proof.
+  intros g g1 [|c r] X f F b l Hg Hg1 Hs HF; [discriminate|].
+  apply read_type_open; assumption.
+Qed.
+
+Lemma typed_field_close : forall n t g2 g3 g4 st k f F m tf ef b l,
+  field_name_ok n = true -> gap g2 -> gap g3 -> gap g4 -> RTy t st -> P_ty t st ->
+  m <> LBare ->
+  (length (n ++ g2 ++ 58%N :: g3 ++ st ++ g4 ++ 41%N :: k) <= f)%nat ->
+  (length (n ++ g2 ++ 58%N :: g3 ++ st ++ g4 ++ 41%N :: k) < F)%nat ->
+  exists l', fields_body f F m tf ef
+      (mkPst (gc b (n ++ g2 ++ 58 :: g3 ++ st ++ g4 ++ 41 :: k)) l)
+    = ROk (TStruct (rev tf ++ [(n, t)]))
+        (mkPst (gc (41 :: rev g4 ++ rev st ++ rev g3 ++ 58 :: rev g2 ++ rev n ++ b) k) l').
+Proof.
+  intros n t g2 g3 g4 st k f F m tf ef b l Hn H2 H3 H4 Ht PT Hm Hf HF.
+  destruct (field_prefix n t g2 g3 st (g4 ++ 41 :: k) f F m tf ef b l Hn H2 H3 Ht PT
+              (gap_follow g4 (41 :: k) H4 eq_refl) Hm Hf HF) as [l1 E1].
+  rewrite E1.
+  rewrite !app_length in HF. cbn [length] in HF. rewrite !app_length in HF.
+  destruct (after_field_close g4 f F LTyped ((n, t) :: tf) ef
+              (rev st ++ rev g3 ++ 58 :: rev g2 ++ rev n ++ b) k l1 H4
+              ltac:(rewrite app_length; lia)) as [l2 E2].
+  rewrite E2. exists l2. reflexivity.
+Qed.
+
+Lemma typed_field_comma : forall n t g2 g3 g4 st X f F m tf ef b l,
+  field_name_ok n = true -> gap g2 -> gap g3 -> gap g4 -> RTy t st -> P_ty t st ->
+  m <> LBare ->
+  (length (n ++ g2 ++ 58%N :: g3 ++ st ++ g4 ++ 44%N :: X) <= f)%nat ->
+  (length (n ++ g2 ++ 58%N :: g3 ++ st ++ g4 ++ 44%N :: X) < F)%nat ->
+  exists l', fields_body f F m tf ef
+      (mkPst (gc b (n ++ g2 ++ 58 :: g3 ++ st ++ g4 ++ 44 :: X)) l)
+    = read_fields f F LTyped ((n, t) :: tf) ef
+        (mkPst (gc (44 :: rev g4 ++ rev st ++ rev g3 ++ 58 :: rev g2 ++ rev n ++ b) X) l').
+Proof.
+  intros n t g2 g3 g4 st X f F m tf ef b l Hn H2 H3 H4 Ht PT Hm Hf HF.
+  destruct (field_prefix n t g2 g3 st (g4 ++ 44 :: X) f F m tf ef b l Hn H2 H3 Ht PT
+              (gap_follow g4 (44 :: X) H4 eq_refl) Hm Hf HF) as [l1 E1].
+  rewrite E1.
+  rewrite !app_length in HF. cbn [length] in HF. rewrite !app_length in HF.
+  destruct (after_field_comma g4 f F LTyped ((n, t) :: tf) ef
+              (rev st ++ rev g3 ++ 58 :: rev g2 ++ rev n ++ b) X l1 H4
+              ltac:(rewrite app_length; lia)) as [l2 E2].
+  rewrite E2. exists l2. reflexivity.
+Qed.
+
+Lemma name_close : forall n g2 k f F m tf ef b l,
+  field_name_ok n = true -> gap g2 -> m <> LTyped ->
+  (length (n ++ g2 ++ 41%N :: k) < F)%nat ->
+  exists l', fields_body f F m tf ef (mkPst (gc b (n ++ g2 ++ 41 :: k)) l)
+    = ROk (TEnum (rev ef ++ [n])) (mkPst (gc (41 :: rev g2 ++ rev n ++ b) k) l').
+Proof.
+  intros n g2 k f F m tf ef b l Hn H2 Hm HF.
+  destruct (name_prefix n g2 41 k f F m tf ef b l Hn H2 (or_introl eq_refl) Hm HF) as [l1 E1].
+  rewrite E1. rewrite !app_length in HF.
+  destruct (after_field_close [] f F LBare tf (n :: ef) (rev g2 ++ rev n ++ b) k l1 gap_nil
+              ltac:(cbn [app]; lia)) as [l2 E2].
+  cbn [app rev] in E2. rewrite E2. exists l2. reflexivity.
+Qed.
+
+Lemma name_comma : forall n g2 X f F m tf ef b l,
+  field_name_ok n = true -> gap g2 -> m <> LTyped ->
+  (length (n ++ g2 ++ 44%N :: X) < F)%nat ->
+  exists l', fields_body f F m tf ef (mkPst (gc b (n ++ g2 ++ 44 :: X)) l)
+    = read_fields f F LBare tf (n :: ef) (mkPst (gc (44 :: rev g2 ++ rev n ++ b) X) l').
+Proof.
+  intros n g2 X f F m tf ef b l Hn H2 Hm HF.
+  destruct (name_prefix n g2 44 X f F m tf ef b l Hn H2 (or_intror eq_refl) Hm HF) as [l1 E1].
+  rewrite E1. rewrite !app_length in HF.
+  destruct (after_field_comma [] f F LBare tf (n :: ef) (rev g2 ++ rev n ++ b) X l1 gap_nil
+              ltac:(cbn [app]; lia)) as [l2 E2].
+  cbn [app rev] in E2. rewrite E2. exists l2. reflexivity.
+Qed.
+
+(* ---- the induction predicates for field lists ---- *)
+Definition P_fields (fs : list (bytes * ty)) (s : bytes) : Prop :=
+  exists g1 s1, s = g1 ++ s1 /\ gap g1 /\ starts_lower s1 = true /\
+    forall f F b k l m tf ef, m <> LBare ->
+      (length (s1 ++ 41%N :: k) <= f)%nat -> (length (s1 ++ 41%N :: k) < F)%nat ->
+      exists l', fields_body f F m tf ef (mkPst (gc b (s1 ++ 41 :: k)) l)
+        = ROk (TStruct (rev tf ++ fs)) (mkPst (gc (41 :: rev s1 ++ b) k) l').
+
+Definition P_names (ns : list bytes) (s : bytes) : Prop :=
+  exists g1 s1, s = g1 ++ s1 /\ gap g1 /\ starts_lower s1 = true /\
+    forall f F b k l m tf ef, m <> LTyped ->
+      (length (s1 ++ 41%N :: k) <= f)%nat -> (length (s1 ++ 41%N :: k) < F)%nat ->
+      exists l', fields_body f F m tf ef (mkPst (gc b (s1 ++ 41 :: k)) l)
+        = ROk (TEnum (rev ef ++ ns)) (mkPst (gc (41 :: rev s1 ++ b) k) l').
+
+Lemma P_fields_one : forall n t g1 g2 g3 g4 st,
+  field_name_ok n = true -> gap g1 -> gap g2 -> gap g3 -> gap g4 -> RTy t st -> P_ty t st ->
+  P_fields [(n, t)] (g1 ++ n ++ g2 ++ [58] ++ g3 ++ st ++ g4).
+Proof.
+  intros n t g1 g2 g3 g4 st Hn H1 H2 H3 H4 Ht PT.
+  exists g1, (n ++ g2 ++ [58] ++ g3 ++ st ++ g4).
+  split; [reflexivity|]. split; [exact H1|]. split; [apply field_starts_lower, Hn|].
+  intros f F b k l m tf ef Hm Hf HF.
+  replace ((n ++ g2 ++ [58] ++ g3 ++ st ++ g4) ++ 41 :: k)
+    with (n ++ g2 ++ 58 :: g3 ++ st ++ g4 ++ 41 :: k) in * by (norm_list; reflexivity).
+  destruct (typed_field_close n t g2 g3 g4 st k f F m tf ef b l Hn H2 H3 H4 Ht PT Hm Hf HF)
+    as [l' E].
+  rewrite E. exists l'. norm_list. reflexivity.
+Qed.
+
+Lemma P_fields_cons : forall n t g1 g2 g3 g4 st fs s,
+  field_name_ok n = true -> gap g1 -> gap g2 -> gap g3 -> gap g4 -> RTy t st -> P_ty t st ->
+  P_fields fs s ->
+  P_fields ((n, t) :: fs) (g1 ++ n ++ g2 ++ [58] ++ g3 ++ st ++ g4 ++ [44] ++ s).
+Proof.
+  intros n t g1 g2 g3 g4 st fs s Hn H1 H2 H3 H4 Ht PT (g1' & s1' & -> & H1' & Hs1' & IH).
+  exists g1, (n ++ g2 ++ [58] ++ g3 ++ st ++ g4 ++ [44] ++ g1' ++ s1').
+  split; [reflexivity|]. split; [exact H1|]. split; [apply field_starts_lower, Hn|].
+  intros f F b k l m tf ef Hm Hf HF.
+  replace ((n ++ g2 ++ [58] ++ g3 ++ st ++ g4 ++ [44] ++ g1' ++ s1') ++ 41 :: k)
+    with (n ++ g2 ++ 58 :: g3 ++ st ++ g4 ++ 44 :: g1' ++ s1' ++ 41 :: k) in *
+    by (norm_list; reflexivity).
+  destruct (typed_field_comma n t g2 g3 g4 st (g1' ++ s1' ++ 41 :: k) f F m tf ef b l
+              Hn H2 H3 H4 Ht PT Hm Hf HF) as [l1 E1].
+  rewrite E1.
+  pose proof (RTy_len t st Ht) as Lst.
+  assert (Ln : (1 <= length n)%nat) by (destruct n; [discriminate|cbn [length]; lia]).
+  rewrite !app_length in Hf, HF. cbn [length] in Hf, HF.
+  rewrite !app_length in Hf, HF. cbn [length] in Hf, HF.
+  rewrite !app_length in Hf, HF. cbn [length] in Hf, HF.
+  destruct f as [|f']; [lia|].
+  destruct (read_fields_gap g1' f' F LTyped ((n, t) :: tf) ef
+              (44 :: rev g4 ++ rev st ++ rev g3 ++ 58 :: rev g2 ++ rev n ++ b)
+              (s1' ++ 41 :: k) l1 H1'
+              (starts_lower_stop _ ltac:(destruct s1'; [discriminate|exact Hs1']))
+              ltac:(rewrite !app_length; cbn [length]; lia)) as [l2 E2].
+  rewrite E2.
+  destruct (IH f' F (rev g1' ++ 44 :: rev g4 ++ rev st ++ rev g3 ++ 58 :: rev g2 ++ rev n ++ b)
+              k l2 LTyped ((n, t) :: tf) ef ltac:(discriminate)
+              ltac:(rewrite app_length; cbn [length]; lia)
+              ltac:(rewrite app_length; cbn [length]; lia)) as [l3 E3].
+  rewrite E3. exists l3. norm_list. reflexivity.
+Qed.
+
+Lemma P_names_one : forall n g1 g2,
+  field_name_ok n = true -> gap g1 -> gap g2 -> P_names [n] (g1 ++ n ++ g2).
+Proof.
+  intros n g1 g2 Hn H1 H2. exists g1, (n ++ g2).
+  split; [reflexivity|]. split; [exact H1|]. split; [apply field_starts_lower, Hn|].
+  intros f F b k l m tf ef Hm Hf HF. rewrite <- app_assoc in *.
+  destruct (name_close n g2 k f F m tf ef b l Hn H2 Hm HF) as [l' E].
+  rewrite E. exists l'. norm_list. reflexivity.
+Qed.
+
+Lemma P_names_cons : forall n g1 g2 ns s,
+  field_name_ok n = true -> gap g1 -> gap g2 -> P_names ns s ->
+  P_names (n :: ns) (g1 ++ n ++ g2 ++ [44] ++ s).
+Proof.
+  intros n g1 g2 ns s Hn H1 H2 (g1' & s1' & -> & H1' & Hs1' & IH).
+  exists g1, (n ++ g2 ++ [44] ++ g1' ++ s1').
+  split; [reflexivity|]. split; [exact H1|]. split; [apply field_starts_lower, Hn|].
+  intros f F b k l m tf ef Hm Hf HF.
+  replace ((n ++ g2 ++ [44] ++ g1' ++ s1') ++ 41 :: k)
+    with (n ++ g2 ++ 44 :: g1' ++ s1' ++ 41 :: k) in * by (norm_list; reflexivity).
+  destruct (name_comma n g2 (g1' ++ s1' ++ 41 :: k) f F m tf ef b l Hn H2 Hm HF) as [l1 E1].
+  rewrite E1.
+  assert (Ln : (1 <= length n)%nat) by (destruct n; [discriminate|cbn [length]; lia]).
+  rewrite !app_length in Hf, HF. cbn [length] in Hf, HF.
+  rewrite !app_length in Hf, HF. cbn [length] in Hf, HF.
+  destruct f as [|f']; [lia|].
+  destruct (read_fields_gap g1' f' F LBare tf (n :: ef) (44 :: rev g2 ++ rev n ++ b)
+              (s1' ++ 41 :: k) l1 H1'
+              (starts_lower_stop _ ltac:(destruct s1'; [discriminate|exact Hs1']))
+              ltac:(rewrite !app_length; cbn [length]; lia)) as [l2 E2].
+  rewrite E2.
+  destruct (IH f' F (rev g1' ++ 44 :: rev g2 ++ rev n ++ b) k l2 LBare tf (n :: ef)
+              ltac:(discriminate)
+              ltac:(rewrite app_length; cbn [length]; lia)
+              ltac:(rewrite app_length; cbn [length]; lia)) as [l3 E3].
+  rewrite E3. exists l3. norm_list. reflexivity.
+Qed.
